@@ -166,7 +166,7 @@ def replay(pid, path):
 
 MANIFEST_C11 = dict(engine='explore+tlc-trace', ref='DESIGN.md section 6 C11',
    technique='TLC model checking of ScpiStatus.tla + TLC validation of every transition of the implementation state graph and of random walks',
-   text='TLC exhaustively checks StbCoherent and the action properties on bounded alphabets of ScpiStatus.tla; the real library is explored breadth-first over the same alphabets (snapshot/restore, incl. ring indices) and every transition, plus seeded 16-bit random walks, is validated by TLC as the step the specification prescribes. Exhaustive within the alphabets, sampled beyond.',
+   text='TLC exhaustively checks StbCoherent and the action properties on bounded alphabets of ScpiStatus.tla; the real library is explored breadth-first over the same alphabets (snapshot/restore, incl. ring indices) and every transition, plus seeded 16-bit random walks, is validated by TLC as the step the specification prescribes (also without an error callback installed and with writes to the MSS position). In addition the composition Scpi.tla is model-checked and random messages of a minimal instrument, and the hook traces of the repository test programs, are validated against it. Exhaustive within the alphabets, sampled beyond.',
    note='Trusted: TLC, the driver projection (registers read from the context, queue content). Representative bits per register instead of all 16; direct STB writes excluded; SRE bit 6 ignored.')
 MANIFEST_C12 = dict(engine='explore+tlc-trace', ref='DESIGN.md section 6 C12',
    technique='TLC model checking of ScpiStatus.tla + TLC validation of implementation transitions, all 65536 codes',
